@@ -514,6 +514,13 @@ func Mutations(r RNG, t *Ty, emit func(kind string, b []byte)) {
 		}
 	}
 	enc := GenValid(r, t)
+	if len(enc) >= 2 && r.Chance(1, 10) {
+		// a small value in one of the first two bytes: enum indices, option / bool bytes, counts
+		b := append([]byte{}, enc...)
+		b[r.Intn(2)] = []byte{0, 1, 2, 3, 4, 5, 6, 7, 8, 9, 0xff}[r.Intn(11)]
+		out("idx", b)
+		return
+	}
 	switch r.Intn(12) {
 	case 0, 1:
 		out("valid", enc)
